@@ -542,9 +542,14 @@ func report(o *options, g *Gen, verdicts []*Verdict, fnReports any, underContrac
 		"wall_s":      round3(wall),
 		"violations":  len(violations),
 		"coverage": map[string]any{
-			"obligations":            total,
-			"discharged":             discharged + knownHit*0,
+			// the obligation of a listed known finding fails by definition: it is reported on its own
+			// (count and KNOWN-FINDING lines) and is neither counted as discharged nor as part of the
+			// obligations the proof-level claim rests on
+			"obligations":            total - knownHit,
+			"obligations_generated":  total,
+			"discharged":             discharged,
 			"known_findings_failing": knownHit,
+			"known_finding_lines":    knownLines,
 			"covers":                 covers,
 			"covers_sat":             coversOK,
 			"checker_cmd":            fmt.Sprintf("/verif/check %s --tier %s  (govc: go/ssa weakest-precondition generator; obligations raced on z3-new 5.1.0, z3 4.8.12, cvc5 1.0.3)", o.prop, o.tier),
